@@ -105,6 +105,7 @@ type outMsg struct {
 
 // Inc is one transport incarnation as seen by the broker.
 type Inc struct {
+	noRead    bool // rule stopRead: this incarnation reads nothing any more (guarded by b.mu)
 	c         int
 	b         *Broker
 	srvRaw    transport.ReadWriter
@@ -599,7 +600,7 @@ func (i *Inc) readLoop() {
 		// stopReading: the peer is alive but does not read any more (every client write blocks)
 		for {
 			i.b.mu.Lock()
-			nr := i.b.noRead
+			nr := i.b.noRead || i.noRead
 			i.b.mu.Unlock()
 			if !nr || !i.alive() {
 				break
@@ -758,6 +759,14 @@ func absGroups(gs []*message.DataPointGroup, aliasName func(uint32) string) []Ev
 func (i *Inc) handle(m message.Message) {
 	b := i.b
 	kind := KindOf(m)
+	// stopRead: this message is the last one the peer reads (a peer that died: alive on the wire, reading nothing any more); set by the
+	// reading goroutine itself, so that no further Read is started
+	if r := b.findRule(kind, i.c, "stopRead"); r != nil {
+		b.mu.Lock()
+		i.noRead = true // this incarnation only: the peer the client redials is a healthy one
+		b.mu.Unlock()
+		b.rec.Log("Fault", "c", i.c, "do", "stopRead", "on", kind)
+	}
 	switch t := m.(type) {
 	case *message.ConnectRequest:
 		b.rec.Log("BRecvReq", "c", i.c, "kind", kind, "rid", int(t.RequestID),
